@@ -60,7 +60,7 @@ func Run(r *ev.Run, replay string) {
 	if err := ev.ReadJSON(ev.Root+"/witnesses/C09.json", &wit); err != nil {
 		r.Inconclusive("witnesses/C09.json: " + err.Error())
 	}
-	n := r.N(20000, 120000)
+	n := r.N(20000, 1200000)
 	var wg sync.WaitGroup
 	for _, sg := range systems() {
 		for _, w := range wit {
